@@ -729,6 +729,7 @@ def _run(ctx, pgpy, d, tmp):
 
     # ---- 5. encodings of other producers, written by the model, imported by PGPy
     run_foreign(ctx, pgpy, d, K, fast, blobs)
+    big_indeterminate(ctx, pgpy, K)
 
     # ---- 6. packet sequences outside the grammar: __or__ against the model
     run_sequences(ctx, pgpy, d, K, fast, blobs)
@@ -906,6 +907,10 @@ def run_foreign(ctx, pgpy, d, K, fast, blobs):
                     if j == len(pk) - 1: opts.append('old0')
                 if tag != 11 and tag != 8 and 'partial' in opts and rep % 2 == 0: opts.remove('partial')   # RFC: partial only for data packets
                 st = rng.choice(opts)
+                if tag == 4 and body[-1:] == b'\x01' and rng.random() < 0.4:
+                    # RFC 4880 5.4: ANY non-zero flag octet marks the last one-pass signature packet (repair 8f84a8a)
+                    body = body[:-1] + bytes([rng.choice([2, 3, 0x80, 0xfe, 0xff])])
+                    ctx.dist['foreign:onepass-last-flag-not-1'] = ctx.dist.get('foreign:onepass-last-flag-not-1', 0) + 1
                 if tag == 11 and 194 <= len(body) < 60000 and rep == 0:
                     st = 'partial2'
                     ctx.dist['foreign:literal-partial-then-two-octet-last-part'] = ctx.dist.get('foreign:literal-partial-then-two-octet-last-part', 0) + 1
@@ -979,6 +984,30 @@ def run_foreign(ctx, pgpy, d, K, fast, blobs):
                 if o4 != ('ok', ('1', True, True, True, True, True)):
                     ctx.fail('foreign', 'an imported foreign message, signed and exported, does not import back with its content, metadata and signatures '
                              '(grammar, content, filename, time, signature count, verifies) = %r' % (o4,), dict(cd, then_signed_by=sk_name))
+
+
+def big_indeterminate(ctx, pgpy, K):
+    """a literal of another producer written WITHOUT a length field (old format, length type 3) whose body needs a 2-, 3- (!) or
+    4-octet length once it gets one: imported, exported as it is, then signed and exported again -- each export must import back to
+    the same content, and the signed one to the same signature (old-format length types are 1, 2 and 4 octets wide: 3 is not one)"""
+    sk_name = K.names[0]
+    for n in ((255, 256, 65535, 65536, 70000) if ctx.quick else (255, 256, 65535, 65536, 70000, 300000, 16777215 - 6, 16777216)):
+        body = b'b' + b'\x00' + (1).to_bytes(4, 'big') + bytes((i * 7 + 3) & 0xff for i in range(n - 6))
+        raw = bytes([0x80 | (11 << 2) | 3]) + body
+        ctx.case('foreign', ('big-indeterminate', n), sample={'styles': ['old0'], 'literal_body_octets': n})
+        def flow():
+            m = pgpy.PGPMessage.from_blob(raw)
+            e1 = bytes(m)
+            m1 = pgpy.PGPMessage.from_blob(e1)
+            m |= K.k[sk_name].sign(m, created=T0 + timedelta(seconds=3000))
+            e2 = bytes(m)
+            m2 = pgpy.PGPMessage.from_blob(e2)
+            return (bytes(m1._message._contents) == body[6:], bytes(m2._message._contents) == body[6:], len(m2._signatures) == 1,
+                    bool(K.k[sk_name].pubkey.verify(m2)), bytes(pgpy.PGPMessage.from_blob(e2)) == e2)
+        o = outcome(flow)
+        if o != ('ok', (True, True, True, True, True)):
+            ctx.fail('foreign', 'a literal read without a length field (body of %d octets) does not survive export / signing / export: '
+                     '(content, content after signing, one signature, verifies, export is a fixed point) = %r' % (n, o), {'op': 'big-indeterminate', 'n': n})
 
 
 def run_sequences(ctx, pgpy, d, K, fast, blobs):
